@@ -276,4 +276,47 @@ def p_ret_position_offset(pr, prog, cg, body, R):
     return n > 0, "%s returns Some(position %+d) only (%d paths)" % (pr["fn"].split("::")[-1], pr["offset"], n)
 
 
-PREMISES = {"ret_position_offset": p_ret_position_offset, "ret_ordered_positions": p_ret_ordered_positions, "callers": p_callers, "ctor_only": p_ctor_only, "ctor_consts": p_ctor_consts, "returns_variant": p_returns_variant}
+def p_arg_nonempty(pr, prog, cg, body, R):
+    """{"arg", "callers": {caller: bool}}: at every call of the reviewed function made from (a private helper of) a
+    caller marked true, the string / slice handed over as argument `arg` is known to be non-empty at the call (a
+    dominating `len() == 0 -> return` guard): the review relied on that caller testing for an empty piece first."""
+    from bounds import Bounds, Lin
+    want = pr["callers"]
+
+    def callers_of(path):
+        out = []
+        for p in R:
+            b = cg.nodes[p]
+            for i, t in b.calls():
+                if (t["callee"].get("resolved") or t["callee"].get("path") or "") == path:
+                    out.append((b, i, t))
+        return out
+
+    def roots(fn, depth=0):
+        if fn.npath in want:
+            return {fn.npath}
+        if fn.is_pub or depth > 3:
+            return set()
+        out = set()
+        for b, i, t in callers_of(fn.path):
+            out |= roots(b, depth + 1)
+        return out
+    n = 0
+    for b, i, t in callers_of(body.path):
+        rs = roots(b)
+        if not any(want.get(r) for r in rs):
+            continue
+        n += 1
+        a = t["args"][pr.get("arg", 0)]
+        if a["k"] not in ("copy", "move"):
+            return False, "argument of %s at line %d is not a place" % (body.npath, t["line"])
+        bnd = Bounds(b)
+        key, _ = bnd.root_key(a["place"])
+        goal = Lin({("len", key): -1}, 1)            # 1 - len <= 0
+        if not bnd.prove(goal, i, "term"):
+            return False, ("%s is called at line %d of %s with a text that is not known to be non-empty there; the review of "
+                           "this site relied on the caller rejecting an empty piece first" % (body.npath, t["line"], b.npath))
+    return True, "argument non-empty at %d call site(s) that the review relied on" % n
+
+
+PREMISES = {"arg_nonempty": p_arg_nonempty, "ret_position_offset": p_ret_position_offset, "ret_ordered_positions": p_ret_ordered_positions, "callers": p_callers, "ctor_only": p_ctor_only, "ctor_consts": p_ctor_consts, "returns_variant": p_returns_variant}
